@@ -425,14 +425,27 @@ Definition put (st : list N * N) (piece : list N) : list N * N :=
   else if room <=? N.of_nat (length piece) then (out, 1)
   else (out ++ piece, room - N.of_nat (length piece)).
 Definition put_all (st : list N * N) (pieces : list (list N)) : list N * N := fold_left put pieces st.
-(* the arguments of a record: strings (payload bytes, a C string) and chars *)
-Inductive argv := AStr (raw : list N) | AChr (c : N).
+Fixpoint hex_aux (fuel : nat) (n : N) (acc : list N) : list N :=
+  match fuel with
+  | O => acc
+  | S f => let acc' := hex_digit (n mod 16) :: acc in
+           if n / 16 =? 0 then acc' else hex_aux f (n / 16) acc'
+  end.
+Definition hex (n : N) : list N := hex_aux 40 n [].               (* '%lx' *)
+(* the arguments of a record: strings (payload bytes, a C string), chars, pointers (with the name of the symbol
+   at that address, if any: task_find_sym_addr) and unsigned 64-bit integers (arg/u) *)
+Inductive argv := AStr (raw : list N) | AChr (c : N) | APtr (sym : option name) (v : N) | AUint (v : N).
 Definition arg_pieces (a : argv) : list (list N) :=
   match a with
   | AStr raw => if is_null_str raw then [[78; 85; 76; 76]]
                 else [92; 34] :: map json_escape_char (cstr raw) ++ [[92; 34]]
   | AChr c => [39] :: json_escape_char c :: [[39]]
+  | APtr (Some nm) _ => [38] :: map json_escape_char (cstr nm)       (* '&' + the escaped name (fix 767f11d) *)
+  | APtr None v => if v =? 0 then [[48]] else [[48; 120] ++ hex v]     (* '0' / '%p' *)
+  | AUint v => if 100000 <? v then [[48; 120] ++ hex v] else [dec v]  (* '%#llx' above 100000, else '%#llu' *)
   end.
+(* the code as found printed the symbol name of a pointer raw: '&' + name in one piece *)
+Definition ptr_text_legacy (nm : name) : list N := 38 :: nm.
 (* the argument loop of get_argspec_string: ', ' between arguments, `if (len <= 2) break` after each *)
 Fixpoint args_loop (first : bool) (args : list argv) (st : list N * N) : list N * N :=
   match args with
